@@ -14,42 +14,8 @@ import (
 
 	"pgregory.net/rapid"
 	"verifstat"
+	"verifstat/pcgen"
 )
-
-var verifFlagVals = []rune{' ', '\t', '\\', '-', 'a', 'b', 'L', '/', '.', '=', ',', 'é', '世', '0', '_'}
-
-func verifFlag(t *rapid.T) string {
-	letter := rapid.SampledFrom([]rune("ILlDWf")).Draw(t, "letter")
-	n := rapid.IntRange(0, 6).Draw(t, "vlen")
-	rs := make([]rune, 0, n)
-	for i := 0; i < n; i++ {
-		rs = append(rs, rapid.SampledFrom(verifFlagVals).Draw(t, "vr"))
-	}
-	for len(rs) > 0 && rs[0] == '-' {
-		rs = rs[1:]
-	}
-	for len(rs) > 0 && (rs[len(rs)-1] == ' ' || rs[len(rs)-1] == '\t' || rs[len(rs)-1] == '\\') {
-		rs = rs[:len(rs)-1]
-	}
-	return "-" + string(letter) + string(rs)
-}
-
-func verifRender(flags []string) string {
-	var b strings.Builder
-	for i, f := range flags {
-		if i > 0 {
-			b.WriteByte(' ')
-		}
-		b.WriteString(f[:2])
-		for _, r := range f[2:] {
-			if r == ' ' || r == '\t' {
-				b.WriteByte('\\')
-			}
-			b.WriteRune(r)
-		}
-	}
-	return b.String()
-}
 
 func TestVerifC17ExpandEnvToArgs(t *testing.T) {
 	c := verifstat.For("C17")
@@ -75,12 +41,8 @@ func TestVerifC17ExpandEnvToArgs(t *testing.T) {
 		nexp := 0
 		for i := 0; i < nparts; i++ {
 			kind := rapid.IntRange(0, 3).Draw(t, "kind")
-			nf := rapid.IntRange(0, 3).Draw(t, "nf")
-			var flags []string
-			for j := 0; j < nf; j++ {
-				flags = append(flags, verifFlag(t))
-			}
-			text := verifRender(flags)
+			flags := pcgen.Flags(t, 3)
+			text := pcgen.Render(t, flags, true)
 			switch kind {
 			case 0: // literal
 				if text == "" {
@@ -103,7 +65,7 @@ func TestVerifC17ExpandEnvToArgs(t *testing.T) {
 				pkg := fmt.Sprintf("p%d", i)
 				out := text
 				if rapid.Bool().Draw(t, "multiline") && len(flags) > 1 {
-					out = verifRender(flags[:1]) + "\n" + verifRender(flags[1:])
+					out = pcgen.Render(t, flags[:1], true) + "\n" + pcgen.Render(t, flags[1:], true)
 				}
 				os.WriteFile(filepath.Join(pc, pkg+op), []byte(out+"\n"), 0o644)
 				sp := rapid.SampledFrom([]string{"", " "}).Draw(t, "sp")
